@@ -25,6 +25,7 @@ type Frame struct {
 	Phase  int                 // deferred phase of the site (see Node.Phase)
 	RD     *ssa.RunDefers      // the RunDefers that runs Site when Site is a deferred call
 	Depth  int
+	G      *Graph
 	kids   map[frameKey]*Frame
 }
 
@@ -62,13 +63,16 @@ type Graph struct {
 	// Learn switches on the path-learned facts of FindPath (exponential in the number of tests of stable values
 	// on a path: for small graphs only).
 	Learn bool
+	// pathCells: during a path search, what the path being extended last stored into each tracked local cell
+	// (error-typed cells with several stores); consulted by ErrEdgeOnPath
+	pathCells map[cellKey]ssa.Value
 	Root  *Frame
 }
 
 // New creates a graph rooted at fn.
 func New(p *core.Program, fn *ssa.Function, depth int) *Graph {
 	g := &Graph{P: p, MaxDepth: depth}
-	g.Root = &Frame{Fn: fn, kids: map[frameKey]*Frame{}}
+	g.Root = &Frame{Fn: fn, G: g, kids: map[frameKey]*Frame{}}
 	return g
 }
 
@@ -84,7 +88,7 @@ func (g *Graph) child(f *Frame, site ssa.CallInstruction, phase int, fn *ssa.Fun
 	if c := f.kids[k]; c != nil {
 		return c
 	}
-	c := &Frame{Fn: fn, Parent: f, Site: site, Phase: phase, Depth: f.Depth + 1, kids: map[frameKey]*Frame{}}
+	c := &Frame{Fn: fn, Parent: f, Site: site, Phase: phase, Depth: f.Depth + 1, G: f.G, kids: map[frameKey]*Frame{}}
 	f.kids[k] = c
 	return c
 }
@@ -207,7 +211,7 @@ func (g *Graph) Succ(n Node) []Node {
 			k := frameKey{x, ph, callee}
 			c := f.kids[k]
 			if c == nil {
-				c = &Frame{Fn: callee, Parent: f, Site: d, Phase: ph, RD: x, Depth: f.Depth + 1, kids: map[frameKey]*Frame{}}
+				c = &Frame{Fn: callee, Parent: f, Site: d, Phase: ph, RD: x, Depth: f.Depth + 1, G: f.G, kids: map[frameKey]*Frame{}}
 				f.kids[k] = c
 			}
 			out = append(out, g.first(c, callee.Blocks[0]))
@@ -313,11 +317,77 @@ func (g *Graph) FindPath(from []Node, avoid func(Node) bool, target func(Node) b
 		in    ssa.Instruction
 		phase int
 		facts string
+		cells string
 	}
 	type state struct {
 		n     Node
 		facts string // sorted "<id>=<0|1>;" entries
+		cells string // sorted "<cell id>=<value id>;" entries: last store into tracked cells on this path
 	}
+	cellIDs := map[cellKey]int{}
+	var cellOf []cellKey
+	valIDs := map[ssa.Value]int{}
+	var valOf []ssa.Value
+	setCell := func(cells string, ck cellKey, v ssa.Value) string {
+		ci, ok := cellIDs[ck]
+		if !ok {
+			ci = len(cellOf)
+			cellIDs[ck] = ci
+			cellOf = append(cellOf, ck)
+		}
+		vi, ok := valIDs[v]
+		if !ok {
+			vi = len(valOf)
+			valIDs[v] = vi
+			valOf = append(valOf, v)
+		}
+		pre := fmt.Sprintf("%04d=", ci)
+		var parts []string
+		for _, e := range strings.SplitAfter(cells, ";") {
+			if e != "" && !strings.HasPrefix(e, pre) {
+				parts = append(parts, e)
+			}
+		}
+		parts = append(parts, fmt.Sprintf("%s%05d;", pre, vi))
+		sort.Strings(parts)
+		return strings.Join(parts, "")
+	}
+	decodeCells := func(cells string) map[cellKey]ssa.Value {
+		if cells == "" {
+			return nil
+		}
+		out := map[cellKey]ssa.Value{}
+		for _, e := range strings.SplitAfter(cells, ";") {
+			var ci, vi int
+			if _, err := fmt.Sscanf(e, "%04d=%05d;", &ci, &vi); err == nil {
+				out[cellOf[ci]] = valOf[vi]
+			}
+		}
+		return out
+	}
+	dropCells := func(cells string, f *Frame) string {
+		if cells == "" {
+			return cells
+		}
+		var keep []string
+		for _, e := range strings.SplitAfter(cells, ";") {
+			var ci, vi int
+			if _, err := fmt.Sscanf(e, "%04d=%05d;", &ci, &vi); err != nil {
+				continue
+			}
+			own := false
+			for a := cellOf[ci].f; a != nil; a = a.Parent {
+				if a == f {
+					own = true
+				}
+			}
+			if !own {
+				keep = append(keep, e)
+			}
+		}
+		return strings.Join(keep, "")
+	}
+	defer func() { g.pathCells = nil }()
 	ids := map[fid]int{}
 	var idOwner []*Frame
 	idOf := func(f *Frame, v ssa.Value) int {
@@ -404,9 +474,9 @@ func (g *Graph) FindPath(from []Node, avoid func(Node) bool, target func(Node) b
 	prev := map[key]*state{}
 	seen := map[key]bool{}
 	var queue []state
-	kf := func(s state) key { return key{s.n.F, s.n.Instr, s.n.Phase, s.facts} }
+	kf := func(s state) key { return key{s.n.F, s.n.Instr, s.n.Phase, s.facts, s.cells} }
 	for _, n := range from {
-		s := state{n, ""}
+		s := state{n, "", ""}
 		if !seen[kf(s)] {
 			seen[kf(s)] = true
 			queue = append(queue, s)
@@ -431,8 +501,26 @@ func (g *Graph) FindPath(from []Node, avoid func(Node) bool, target func(Node) b
 		if avoid != nil && avoid(n) {
 			continue
 		}
-		if iff, ok := n.Instr.(*ssa.If); ok && g.Learn {
-			if v, whenTrue, ok := stableTest(iff.Cond); ok {
+		// what this path last stored into the tracked cells: for the edge decisions made below
+		g.pathCells = decodeCells(cur.cells)
+		cells := cur.cells
+		if st, ok := n.Instr.(*ssa.Store); ok {
+			if al, ok := st.Addr.(*ssa.Alloc); ok && trackedCell(al) {
+				cells = setCell(cells, cellKey{n.F, al}, st.Val)
+			}
+		}
+		if iff, ok := n.Instr.(*ssa.If); ok {
+			var v ssa.Value
+			whenTrue, ok := false, false
+			if g.Learn {
+				v, whenTrue, ok = stableTest(iff.Cond)
+			}
+			// a test of an error variable is a test of the call result the path stored there last: two tests of
+			// the same result agree (always on: such tests are few)
+			if v2, wt, ok2 := g.errCellTest(n.F, iff.Cond); ok2 {
+				v, whenTrue, ok = v2, wt, true
+			}
+			if ok {
 				id := idOf(n.F, v)
 				for idx, sb := range iff.Block().Succs {
 					if g.PruneEdge != nil && g.PruneEdge(n.F, iff, idx) {
@@ -447,7 +535,7 @@ func (g *Graph) FindPath(from []Node, avoid func(Node) bool, target func(Node) b
 					} else {
 						facts = add(facts, id, val)
 					}
-					s := state{g.first(n.F, sb), facts}
+					s := state{g.first(n.F, sb), facts, cur.cells}
 					if !seen[kf(s)] {
 						seen[kf(s)] = true
 						cc := cur
@@ -460,11 +548,15 @@ func (g *Graph) FindPath(from []Node, avoid func(Node) bool, target func(Node) b
 		}
 		for _, sn := range g.Succ(n) {
 			facts := cur.facts
-			if facts != "" && sn.F != n.F && sn.F != nil && sn.F.Parent == n.F {
+			cs := cells
+			if sn.F != n.F && sn.F != nil && sn.F.Parent == n.F {
 				// a new activation of the callee: what an earlier activation learned does not carry over
-				facts = dropFrame(facts, sn.F)
+				if facts != "" {
+					facts = dropFrame(facts, sn.F)
+				}
+				cs = dropCells(cs, sn.F)
 			}
-			s := state{sn, facts}
+			s := state{sn, facts, cs}
 			if !seen[kf(s)] {
 				seen[kf(s)] = true
 				cc := cur
@@ -504,6 +596,134 @@ func onCycle(b *ssa.BasicBlock) bool {
 	}
 	cycleCache[b] = r
 	return r
+}
+
+type cellKey struct {
+	f  *Frame
+	al *ssa.Alloc
+}
+
+var trackedMu sync.Mutex
+var trackedCache = map[*ssa.Alloc]bool{}
+
+// trackedCell: a local cell of type error with more than one store whose address does not escape into a call
+// (a named result captured by a deferred closure is read there, not written).
+func trackedCell(al *ssa.Alloc) bool {
+	trackedMu.Lock()
+	defer trackedMu.Unlock()
+	if r, ok := trackedCache[al]; ok {
+		return r
+	}
+	r := false
+	if pt, ok := al.Type().Underlying().(*types.Pointer); ok && isErrorType(pt.Elem()) && al.Referrers() != nil {
+		n := 0
+		for _, ref := range *al.Referrers() {
+			if st, ok := ref.(*ssa.Store); ok && st.Addr == ssa.Value(al) {
+				n++
+			}
+		}
+		r = n >= 2
+	}
+	trackedCache[al] = r
+	return r
+}
+
+// errCellTest: cond (through negations) compares with nil an error loaded from a local cell; returns the value the
+// path stored there last (a store earlier in the block, or the tracked cell's content) when that value is computed
+// once per activation, and the truth of "value != nil" when cond is true.
+func (g *Graph) errCellTest(f *Frame, cond ssa.Value) (ssa.Value, bool, bool) {
+	truth := true
+	for i := 0; i < 4; i++ {
+		if u, ok := cond.(*ssa.UnOp); ok && u.Op == token.NOT {
+			cond, truth = u.X, !truth
+			continue
+		}
+		break
+	}
+	b, ok := cond.(*ssa.BinOp)
+	if !ok || (b.Op != token.EQL && b.Op != token.NEQ) {
+		return nil, false, false
+	}
+	var x ssa.Value
+	if isNilConst(b.Y) {
+		x = b.X
+	} else if isNilConst(b.X) {
+		x = b.Y
+	} else {
+		return nil, false, false
+	}
+	u, isLoad := x.(*ssa.UnOp)
+	if !isLoad || u.Op != token.MUL || !isErrorType(u.Type()) {
+		return nil, false, false
+	}
+	al, isAl := u.X.(*ssa.Alloc)
+	if !isAl {
+		return nil, false, false
+	}
+	var v ssa.Value
+	// a store earlier in the same block decides
+	blk := u.Block()
+	for i := ir.InstrIndex(u) - 1; i >= 0 && v == nil; i-- {
+		if st, ok := blk.Instrs[i].(*ssa.Store); ok && st.Addr == ssa.Value(al) {
+			v = st.Val
+		}
+	}
+	if v == nil && g.pathCells != nil {
+		v = g.pathCells[cellKey{f, al}]
+	}
+	if v == nil {
+		return nil, false, false
+	}
+	in, isInstr := v.(ssa.Instruction)
+	if !isInstr || in.Block() == nil || onCycle(in.Block()) {
+		return nil, false, false
+	}
+	if b.Op == token.EQL {
+		truth = !truth
+	}
+	return v, truth, true
+}
+
+// ErrEdgeOnPath: as ErrEdge; when the tested error is loaded from a tracked cell, the call whose error result the
+// path being searched stored there last. Meaningful only inside a PruneEdge callback.
+func (f *Frame) ErrEdgeOnPath(iff *ssa.If, idx int) (call *ssa.Call, nonNil bool, ok bool) {
+	if c, nn, ok := ErrEdge(iff, idx); ok {
+		return c, nn, ok
+	}
+	if f == nil || f.G == nil || f.G.pathCells == nil {
+		return nil, false, false
+	}
+	b, isBin := iff.Cond.(*ssa.BinOp)
+	if !isBin || (b.Op != token.NEQ && b.Op != token.EQL) {
+		return nil, false, false
+	}
+	var x ssa.Value
+	if isNilConst(b.Y) {
+		x = b.X
+	} else if isNilConst(b.X) {
+		x = b.Y
+	} else {
+		return nil, false, false
+	}
+	u, isLoad := x.(*ssa.UnOp)
+	if !isLoad || u.Op != token.MUL {
+		return nil, false, false
+	}
+	al, isAl := u.X.(*ssa.Alloc)
+	if !isAl {
+		return nil, false, false
+	}
+	// a store between the load and the start of its block decides locally (ErrEdge did not find one)
+	v, have := f.G.pathCells[cellKey{f, al}]
+	if !have {
+		return nil, false, false
+	}
+	c := errSource(v)
+	if c == nil {
+		return nil, false, false
+	}
+	nonNil = (b.Op == token.NEQ) == (idx == 0)
+	return c, nonNil, true
 }
 
 // stableTest: cond (through negations) compares a parameter or free variable with nil, or is a boolean
